@@ -99,6 +99,6 @@ RefLaws(bytes) ==
   /\ \A d \in {0, NL} :
          LET s == RefSplit(bytes, d) IN
          /\ Flatten([k \in DOMAIN s.toks |-> s.toks[k].b]) = FilterSeq(bytes, LAMBDA c : c # d)
-         /\ \A k \in DOMAIN s.toks : s.toks[k].b # <<>> /\ d \notin Range(s.toks[k].b)
+         /\ \A k \in DOMAIN s.toks : s.toks[k].b # <<>> /\ d \notin RangeOf(s.toks[k].b)
 
 =============================================================================
